@@ -107,6 +107,8 @@ def scenario_list(quick):
                     budget=dict(trig=1, fault=1, tick=2) if quick else dict(trig=2, fault=1, tick=2)))
     # several local events queued behind one outstanding request at A (some of them moot by the time they are replayed)
     out.append(dict(config='match', kinds=('dpd', 'hard', 'acquire'), budget=dict(trigA=3, trigB=1, fault=0)))
+    # a rekey after a rekey that was refused (the simultaneous one): state left behind by the first must not count
+    out.append(dict(config='match', kinds=('soft',), budget=dict(trigA=1, trigB=2, fault=0)))
     # two IKE_SAs per endpoint for one connection (simultaneous initiation), INVALID_KE retries on the way
     out.append(dict(config='ke-mismatch', start='double', kinds=('acquire', 'soft', 'rekey_ike'),
                     budget=dict(trig=2, fault=0) if quick else dict(trig=3, fault=0)))
@@ -311,6 +313,14 @@ def m_coll(pre, ev, post):
             elif sa.state == S_.DEL_CHILD_REQ_SENT and sa.deleting_child_sa is not None \
                     and bytes(sa.deleting_child_sa.inbound_spi) == bytes(child.inbound_spi):
                 need, lab = NT.TEMPORARY_FAILURE, 'rekey-of-child-being-deleted'
+            elif sa.state == S_.ESTABLISHED and not ep_pre.kernel.fail_plan:
+                # converse: nothing collides (the receiver has no exchange of its own under way, the CHILD_SA exists and
+                # the kernel refuses nothing), so the rekey is not to be put off with TEMPORARY_FAILURE
+                COVER['M-coll:rekey-of-child-while-idle'] += 1
+                if int(NT.TEMPORARY_FAILURE) in got:
+                    yield ('M-coll', 'rekey-while-idle:spurious-TEMPORARY_FAILURE',
+                           'rekey of CHILD_SA %s was answered with TEMPORARY_FAILURE although the receiver %s is idle '
+                           '(ESTABLISHED) and is neither rekeying nor deleting it' % (spi.hex(), ep_pre.name))
     if need is not None:
         COVER['M-coll:' + lab] += 1
     if need is not None and int(need) not in got:
